@@ -332,7 +332,7 @@ prop(
             POOL_STAGE],
     rule="real runs of a trigger built with api.NewIterationWorker around a logging rate function (monotonic time, returned value): intervals 5-300ms, with and without distribution (then the 100ms sub-tick function is the one logged), "
          "constant / growing / irregular profiles, half of the runs under scheduling noise from busy goroutines; oracle = extracted predicate c09_ok: the k-th evaluation never happens before t0 + k*interval (one-sided, load-insensitive), "
-         "and with plenty of instant workers started + dropped = sum of the evaluated values minus at most the last one; harness-side: the first evaluation happens right after setup (interval >= 100ms); stage c09stages: two or three rate triggers one after the other on one run's pool manager (what a config file's stages are), later ones with intervals longer than everything before them: c09_ok for each on its own log; real config files of constant stages k per interval whose parameter tags the iterations: a stage starts at most k (1 + floor((D - 20 ms)/interval)) iterations; non-trivial = run with >= 3 evaluations; distinct = distinct logs",
+         "and with plenty of instant workers started + dropped = sum of the evaluated values minus at most the last one; harness-side: the first evaluation happens right after setup (interval >= 100ms); stage c09stages: two or three rate triggers one after the other on one run's pool manager (what a config file's stages are), later ones with intervals longer than everything before them: c09_ok for each on its own log; real config files of constant stages k per interval whose parameter tags the iterations: a stage starts at most k (1 + floor((D - 20 ms)/interval)) iterations (extracted predicate stage_count_ok, theorem C09_stage_bound); non-trivial = run with >= 3 evaluations; distinct = distinct logs",
     assumptions=["time.Ticker never delivers a tick early and its channel buffers at most one tick (hypothesis ticks_not_early of C09_cadence)",
                  "monotonic clock readings of the harness; the last evaluated value may be refused by the pool because triggering had stopped"],
 )
